@@ -35,6 +35,8 @@ QUICK = [
     ('first_node_outside_horizon', dict(T=3, win=(6, 8)), None, 'B'),
     ('first_node_idle_after_window', dict(T=4, win=(0, 2)), None, 'B'),
     ('multicommodity_three_nodes', dict(T=2, factors=(1.0, 0.5, 2.0), take=(0, 2)), None, 'B'),
+    # one asset touching the same node with two commodities (own consumption booked where it delivers): both mapping rows of a variable enter the balance
+    ('multicommodity_node_listed_twice', dict(T=2, factors=(1.0, 0.5, -0.25), node_names=('A', 'B', 'A')), None, 'B'),
     ('structured_two_external_nodes', dict(T=2, two_external=True), None, 'B'),
     ('split_structured', dict(T=4), '2h', 'A'),
     ('split_scaled_storage', dict(T=4, base='storage'), '2h', 'A'),
@@ -61,7 +63,7 @@ THOROUGH = QUICK + [
     ('windows_gap_two_nodes', dict(T=5, wins=((0, 2), (1, 2), (3, 5), (4, 5)), two_nodes=True), None, 'B'),
     ('windows_gap_split', dict(T=4, wins=((0, 1), (0, 1), (3, 4), (3, 4))), '4h', 'A'),
 ]
-SHAPE_OF = dict(multicommodity_three_nodes='multicommodity', structured_two_external_nodes='structured', first_node_idle_in_second_interval='early_node', first_node_outside_horizon='early_node', first_node_idle_after_window='early_node', split_structured='structured', split_scaled_storage='scaled', split_orderbook_last='orderbook', split_alternating_nodes='alternating', mixed_discount_rates='mixed_wacc', windows_gap='windows', windows_gap_two_nodes='windows', windows_gap_split='windows', two_node_2n_storage='two_node', plant_fuel='plant', chp_fuel='plant', coarse_contract='coarse',
+SHAPE_OF = dict(multicommodity_three_nodes='multicommodity', multicommodity_node_listed_twice='multicommodity', structured_two_external_nodes='structured', first_node_idle_in_second_interval='early_node', first_node_outside_horizon='early_node', first_node_idle_after_window='early_node', split_structured='structured', split_scaled_storage='scaled', split_orderbook_last='orderbook', split_alternating_nodes='alternating', mixed_discount_rates='mixed_wacc', windows_gap='windows', windows_gap_two_nodes='windows', windows_gap_split='windows', two_node_2n_storage='two_node', plant_fuel='plant', chp_fuel='plant', coarse_contract='coarse',
                 coarse_transport='coarse', periodic_transport='periodic', scaled_transport='scaled',
                 split_two_node='two_node', window_transport='two_node', two_node_T4='two_node',
                 multicommodity_win='multicommodity', plant_fuel_mr='plant', chp_T3='plant', coarse_contract_win='coarse',
